@@ -24,6 +24,10 @@ func RaceSelf() string {
 
 // stress runs free-running multi-goroutine scripts under several GOMAXPROCS values and validates the traces.
 func stress(r *core.Run, name string, g busdrv.GenOpts, perProcs int, maxprocs []int, seedSalt uint64, classify busdrv.Classifier, hangClause string) {
+	stressWith(r, name, g, perProcs, maxprocs, seedSalt, classify, hangClause, RaceSelf())
+}
+
+func stressWith(r *core.Run, name string, g busdrv.GenOpts, perProcs int, maxprocs []int, seedSalt uint64, classify busdrv.Classifier, hangClause string, self string) {
 	for _, mp := range maxprocs {
 		rnd := rand.New(rand.NewPCG(uint64(r.Seed), seedSalt+uint64(mp)))
 		var scripts []busdrv.Script
@@ -35,7 +39,7 @@ func stress(r *core.Run, name string, g busdrv.GenOpts, perProcs int, maxprocs [
 			r.Case(scriptKey(s))
 		}
 		r.Sample(scripts[0])
-		busdrv.ExecAndValidate(r, scripts, busdrv.ExecOpts{Name: fmt.Sprintf("%s-mp%d", name, mp), Self: RaceSelf(), Seed: uint64(r.Seed)*1000 + uint64(mp),
+		busdrv.ExecAndValidate(r, scripts, busdrv.ExecOpts{Name: fmt.Sprintf("%s-mp%d", name, mp), Self: self, Seed: uint64(r.Seed)*1000 + uint64(mp),
 			Env: []string{fmt.Sprintf("GOMAXPROCS=%d", mp), "GORACE=halt_on_error=1"}, HangIsViolation: true, HangClause: hangClause,
 			CrashClause: "data-race-or-crash", Classify: classify})
 	}
